@@ -332,6 +332,29 @@ func (x *Exec) callFunction(f *ssa.Function, binds []Val, args []Val, call *ssa.
 				if pre := c.Options["before"]; pre == "resetiter" {
 					x.setSV("KV.itvalid", "Bool", "false")
 				}
+				if ce := c.Options["cbarg0"]; ce != "" && len(cbArgs) > 0 {
+					// "the callback's first argument is <expr>" (over the contract's parameter names)
+					if err := x.usePreludes(c); err != nil {
+						x.specError(NamedExpr{Name: "prelude:" + x.V.funcKey(f)}, err)
+					}
+					if se, err := parseSpec(ce); err != nil {
+						x.specError(NamedExpr{Name: "cbarg0:" + x.V.funcKey(f)}, err)
+					} else {
+						env := &SpecEnv{vars: map[string]SpecVal{}, x: x, callee: true}
+						for i, n := range c.Params {
+							if i < len(args) {
+								env.vars[n] = SpecVal{V: args[i]}
+							}
+						}
+						env.st = x.st.clone()
+						if t, err := x.evalSpec(se, env); err != nil {
+							x.specError(NamedExpr{Name: "cbarg0:" + x.V.funcKey(f)}, err)
+						} else {
+							x.smt.assume(implies(x.reach, eq(cbArgs[0].T, t)))
+							x.V.noteAssumed(x.V.funcKey(f) + " hands its callback " + ce)
+						}
+					}
+				}
 				x.V.noteAssumed(x.V.funcKey(f) + " calls its callback exactly once and returns its result")
 				x.runTransaction(c, x.V.funcKey(f), args[idx], cbArgs, setRes, p)
 				return
